@@ -87,7 +87,7 @@ pub fn angle(a: [f64; 3], b: [f64; 3]) -> f64 {
 
 pub fn search_c01(rng: &mut Rng, thorough: bool) -> SearchResult {
     let mut r = SearchResult::default();
-    r.rule = "lookups at every resolution 0..29 for points of all kinds (uniform, polar caps, exact poles, antimeridian, face seams and vertices, points hugging cell edges and vertices, longitudes shifted by multiples of 360): the call succeeds, the ID is canonical of the requested resolution, and a5cell_contains_point of the returned cell is positive or within the 1e-11 edge band; lon + 360k gives a cell containing the same point. non-trivial = distinct (point, resolution) pairs".into();
+    r.rule = "lookups at every resolution 0..29 for points of all kinds (uniform, polar caps, exact poles, antimeridian, face seams and vertices, points hugging cell edges and vertices, longitudes shifted by multiples of 360): the call succeeds, the ID is canonical of the requested resolution, and a5cell_contains_point of the returned cell is positive or within the 1e-11 edge band; lon + 360k (k = -1..1, and k = +-1e3, 1e6, 1e9, 1e12) gives a cell containing the same physical point. non-trivial = distinct (point, resolution) pairs".into();
     let n = if thorough { 1_500_000 } else { 150_000 };
     let mut worst: f64 = 0.0;
     for k in 0..n {
@@ -117,6 +117,22 @@ pub fn search_c01(rng: &mut Rng, thorough: bool) -> SearchResult {
         }
         let zone = if lat.abs() >= 89.999 { "pole" } else if lat.abs() >= 65.0 { "polar_cap" } else { "mid" };
         r.count(zone);
+        // periodicity in longitude far from the principal range: 360*m + lon for large m.  The f64 value lon2 is
+        // an exact real number; the physical point it denotes has longitude lon2 mod 360 (the f64 remainder is exact)
+        if k % 64 == 5 {
+            let m = match rng.below(4) { 0 => 1e3, 1 => 1e6, 2 => 1e9, _ => 1e12 } * if rng.chance(1, 2) { 1.0 } else { -1.0 };
+            let lon2 = lon + 360.0 * m;
+            let red = lon2 % 360.0;
+            if let Ok(Ok(id2)) = std::panic::catch_unwind(|| lonlat_to_cell(LonLat::new(lon2, lat), res)) {
+                let d2 = outside_distance(id2, red, lat);
+                if !(d2 < BAND) {
+                    r.viol("lookup:periodic:far", format!("lonlat_to_cell(({}, {}), {}) = {:x} does not contain the point it denotes (longitude {} = {} mod 360): distance to the cell {:e}", lon2, lat, res, id2, red, lon2, d2));
+                }
+            } else {
+                r.viol("lookup:fail", format!("lonlat_to_cell(({}, {}), {}) fails", lon2, lat, res));
+            }
+            r.count("far_longitude");
+        }
         // periodicity in longitude
         if k % 16 == 0 {
             let lon2 = lon + 360.0 * (rng.range_i(-1, 1) as f64);
